@@ -134,9 +134,15 @@ def excluded (init : Nat) (s : Seg) : Bool :=
 structure Slot where
   seg : Seg
   raw : Option Bytes
-  deriving Repr
+  deriving Repr, DecidableEq
 
 def Slot.len (s : Slot) : Nat := binLen s.raw
+
+/-- the bytes of the raw block (empty when not supplied) -/
+def Slot.bytes (s : Slot) : Bytes := s.raw.getD []
+
+/-- table entries paired with their (optional) raw blocks -/
+def mkSlots (d : List Seg) (raws : List (Option Bytes)) : List Slot := (d.zip raws).map (fun p => Slot.mk p.1 p.2)
 
 /-- `Segment.is_present`: not excluded and a non-empty export -/
 def Slot.present (init : Nat) (s : Slot) : Bool := !excluded init s.seg && decide (0 < s.len)
@@ -187,7 +193,7 @@ def segImg (o : Nat) (s : Slot) : Img := .mk s.len o 1 s.raw none []
 
 /-- `image_info()`: pattern-filled parent of `len(self)` bytes, one sub-image per present segment (`add_image`) -/
 def imageInfo (d : Desc) (init : Nat) (raws : List (Option Bytes)) : PyRes Img :=
-  let slots := (d.segs.zip raws).map (fun p => Slot.mk p.1 p.2)
+  let slots := mkSlots d.segs raws
   match imageLen init slots, placedSegs init slots with
   | .ok n, some l => .ok (l.foldl (fun p os => p.addImage (segImg os.1 os.2)) (Img.mk n 0 1 none (some d.pattern) []))
   | .error e, _ => .error e
